@@ -126,6 +126,47 @@ package message1_1
 //@   pure
 //@   ensures [full-range] result == trsp.TransferId
 
+
+// field accessors: each returns exactly its field (C12: the message a peer decodes means what the sender built)
+//@ func (*message1_1.TransferRequest1_1).IsPaused {C12,C11}
+//@   pure
+//@   ensures [def] result == trq.Pause
+//@ func (*message1_1.TransferRequest1_1).IsPull {C12}
+//@   pure
+//@   ensures [def] result == trq.Pull
+//@ func (*message1_1.TransferRequest1_1).IsPartial {C12}
+//@   pure
+//@   ensures [def] result == trq.Partial
+//@ func (*message1_1.TransferRequest1_1).VoucherType {C12}
+//@   pure
+//@   ensures [def] result == trq.VoucherTypeIdentifier
+//@ func (*message1_1.TransferRequest1_1).EmptyVoucher {C12}
+//@   pure
+//@   ensures [def] result == (trq.VoucherTypeIdentifier == datatransfer.EmptyTypeIdentifier)
+//@ func (*message1_1.TransferRequest1_1).Voucher {C12,C19}
+//@   ensures [def] (trq.VoucherPtr == nil ==> err != nil && result0 == nil) && (trq.VoucherPtr != nil ==> err == nil && result0 == trq.VoucherPtr)
+//@ func (*message1_1.TransferRequest1_1).Selector {C12}
+//@   ensures [def] (trq.SelectorPtr == nil ==> err != nil && result0 == nil) && (trq.SelectorPtr != nil ==> err == nil && result0 == trq.SelectorPtr)
+//@ func (*message1_1.TransferRequest1_1).TypedVoucher {C12,C19}
+//@   ensures [def] (trq.VoucherPtr == nil ==> err != nil) &&
+//@       (trq.VoucherPtr != nil ==> err == nil && result0.Voucher == trq.VoucherPtr && result0.Type == trq.VoucherTypeIdentifier)
+//@ func (*message1_1.TransferRequest1_1).RestartChannelId {C12,C05}
+//@   ensures [def] (trq.MessageType == 7 ==> err == nil && result0 == trq.RestartChannel) && (trq.MessageType != 7 ==> err != nil)
+//@ func (*message1_1.TransferResponse1_1).IsPaused {C12,C11}
+//@   pure
+//@   ensures [def] result == trsp.Paused
+//@ func (*message1_1.TransferResponse1_1).VoucherResultType {C12}
+//@   pure
+//@   ensures [def] result == trsp.VoucherTypeIdentifier
+//@ func (*message1_1.TransferResponse1_1).EmptyVoucherResult {C12}
+//@   pure
+//@   ensures [def] result == (trsp.VoucherTypeIdentifier == datatransfer.EmptyTypeIdentifier)
+//@ func (*message1_1.TransferResponse1_1).VoucherResult {C12,C19}
+//@   ensures [def] (trsp.VoucherResultPtr == nil ==> err != nil && result0 == nil) && (trsp.VoucherResultPtr != nil ==> err == nil && result0 == trsp.VoucherResultPtr)
+//@ func (*message1_1.TransferMessage1_1).TransferID {C12}
+//@   requires (tm.IsRequest ==> tm.Request != nil) && (!tm.IsRequest ==> tm.Response != nil)
+//@   ensures [def] result == (tm.IsRequest ? tm.Request.TransferId : tm.Response.TransferId)
+
 //@ extern func (*github.com/ipld/go-ipld-prime/node/bindnode/registry.BindnodeRegistry).TypeFromReader
 //@ extern func (*github.com/ipld/go-ipld-prime/node/bindnode/registry.BindnodeRegistry).TypeFromNode
 //@ func message1_1.FromNet {C12,C15}
